@@ -220,11 +220,11 @@ def sprintf_formats(chk, sb_tu):
                 params = astdb.fn_params(f)
                 if len(params) > 1:
                     ptype = qtype(params[1])
-                out[name] = dict(fmt=fmt, argtype=argt, paramtype=ptype, node=n)
+                out[name] = dict(fmt=fmt, argtype=argt, paramtype=ptype, node=n, args=a[2:], tu=sb_tu)
     return out
 
 
-CONV = re.compile(r'%([-+ #0]*)(\d+)?(?:\.(\d+))?(hh|h|ll|l|q|j|z|t|L)?([diouxXeEfFgGcs])$')
+CONV = re.compile(r'%([-+ #0]*)(\d+)?(?:\.(\d+|\*))?(hh|h|ll|l|q|j|z|t|L)?([diouxXeEfFgGcs])$')
 
 
 def check_formats(chk, fmts):
@@ -259,7 +259,13 @@ def check_formats(chk, fmts):
             if conv in 'xX':
                 chk.expect(True, 'R07.2', name, '', site)
         else:
-            p = int(prec) if prec is not None else 6
+            if prec == '*':
+                # precision passed as an argument: it must be a compile-time constant of the current build configuration
+                pv = astdb.const_int(e['args'][0], e.get('tu')) if e.get('args') else None
+                chk.require(pv is not None, 'precision argument of %r in %s is not a constant expression' % (e['fmt'], name))
+                p = pv
+            else:
+                p = int(prec) if prec is not None else 6
             chk.expect(conv in convs and p >= n, 'R07.3', name,
                        'format %r gives %d significant digits (%s); round-trip of every finite value needs >= %d '
                        'with a g/e conversion' % (e['fmt'], p, conv, n), site, loc,
